@@ -448,6 +448,7 @@ func hasChannelQuery(us []string) bool {
 
 // URNs a modifier may carry in addition: unnormalised and invalid ones
 var oddURNs = []string{
+	"tel:+12065551212?a;b", "tel:0788123456? ;)", "telegram:123?%zz", "tel:+593979111111?100%",
 	"tel: +593979111111 ", "tel:+593 979 111111", "tel:0979111111", "TEL:+593979111111", "telegram:abc", "tel:", "xyz:abc", "mailto:notanemail",
 	":::", "", "telegram:12345#  bobby ", "mailto: FOO@example.com", "tel:+593979111111#display", "facebook:ref:abc", "tel:(593) 979-111111",
 }
@@ -486,8 +487,8 @@ func genName(r *hx.Rand, max int) string {
 
 var fieldRaws = map[string][]string{
 	"gender":    {"m", "M", "f", "male and more", "", "x"},
-	"age":       {"18", "19", "30.5", "abc", "", "018", "1e2"},
-	"joined":    {"2020-03-04T10:00:00Z", "2021-01-01T00:00:00.000000+02:00", "yesterday", "", "2020-03-04 11:30", "2019-12-31T23:59:59-05:00"},
+	"age":       {"0." + strings.Repeat("0", 1001) + "1", "1" + strings.Repeat("0", 640), "18", "19", "30.5", "abc", "", "018", "1e2"},
+	"joined":    {"2020-01-01T10:00:00.123456789Z", "2020-03-04T10:00:00Z", "2021-01-01T00:00:00.000000+02:00", "yesterday", "", "2020-03-04 11:30", "2019-12-31T23:59:59-05:00"},
 	"state":     {"Kigali City", "kigali", "Rwanda > Kigali City", "Nowhere", "", "Eastern Province"},
 	"district":  {"Gasabo", "Rwanda > Kigali City > Gasabo", "Rwamagana", "Nowhere", "", "gasabo!"},
 	"ward":      {"Gisozi", "Ndera", "Rwanda > Kigali City > Gasabo > Ndera", "Nowhere", "", "Kigabiro"},
